@@ -84,10 +84,6 @@ theorem unpackListResponse_length (b : List Nat) (h : ListResponse) (hh : unpack
 
 /-! ### Reply classes that reach a panic site -/
 
-/-- P1 cannot fire on this message: the assertion is compiled out, or the service nibble is not Emergency. -/
-def NoEmergency (cfg : Cfg) (m : List Nat) : Prop :=
-  cfg.assertEmergency = true → svcNibble (image cfg.rmbx m) ≠ svcEmergency
-
 /-- P2 cannot fire on this message: wrapping build, or mailbox length field at least 3. -/
 def SegLenOk (cfg : Cfg) (m : List Nat) : Prop :=
   cfg.mode = .checked → SEGMENT_HEADER_LEN ≤ rd16 (image cfg.rmbx m)
@@ -116,41 +112,34 @@ def Safe {σ α : Type} (P : DevInv σ) (r : Res α × St σ) : Prop := Res.isPa
 /-! ### triage -/
 
 theorem triage_noPanic {ρ : Type} (cfg : Cfg) (u : List Nat → Res ρ) (v : Nat → Nat → Bool) (p : Pdu)
-    (hu : ∀ b, Res.isPanic (u b) = false)
-    (hE : cfg.assertEmergency = true → svcNibble p.bytes ≠ svcEmergency) :
-    Res.isPanic (triage cfg u v p) = false := by
+    (hu : ∀ b, Res.isPanic (u b) = false) : Res.isPanic (triage cfg u v p) = false := by
   unfold triage
-  refine Res.bind_noPanic _ _ (unpackHeadersRaw_noPanic _) fun h hh => ?_
-  have hs := (unpackHeadersRaw_facts _ _ hh).1
+  refine Res.bind_noPanic _ _ (unpackCoeHeaders_noPanic _) fun ch _ => ?_
   split
-  · next hc =>
-    simp only [Bool.and_eq_true, beq_iff_eq] at hc
-    exact absurd (hs ▸ hc.2) (hE hc.1)
-  · split
-    · exact Res.bind_noPanic _ _ (unpackEmergency_noPanic _) fun _ _ => rfl
+  · exact Res.bind_noPanic _ _ (unpackEmergency_noPanic _) fun _ _ => rfl
+  · refine Res.bind_noPanic _ _ (unpackHeadersRaw_noPanic _) fun h _ => ?_
+    split
+    · exact Res.bind_noPanic _ _ (unpackU32_noPanic _) fun _ _ => rfl
     · split
-      · exact Res.bind_noPanic _ _ (unpackU32_noPanic _) fun _ _ => rfl
-      · split
-        · rfl
-        · exact Res.bind_noPanic _ _ (hu _) fun _ _ => rfl
+      · rfl
+      · exact Res.bind_noPanic _ _ (hu _) fun _ _ => rfl
 
 theorem triage_ok {ρ : Type} (cfg : Cfg) (u : List Nat → Res ρ) (v : Nat → Nat → Bool) (p : Pdu) (r : ρ)
     (data : List Nat) (h : triage cfg u v p = .ok (r, data)) :
     u p.bytes = .ok r ∧ data = (p.trimFront LEN_HeadersRaw).bytes ∧ LEN_HeadersRaw ≤ p.bytes.length := by
   unfold triage at h
-  obtain ⟨hd, hh, h⟩ := bind_ok_inv h
-  have hlen := (unpackHeadersRaw_facts _ _ hh).2.2
+  obtain ⟨ch, _, h⟩ := bind_ok_inv h
   split at h
-  · cases h
-  · split at h
+  · obtain ⟨_, _, h⟩ := bind_ok_inv h; cases h
+  · obtain ⟨hd, hh, h⟩ := bind_ok_inv h
+    have hlen := (unpackHeadersRaw_facts _ _ hh).2.2
+    split at h
     · obtain ⟨_, _, h⟩ := bind_ok_inv h; cases h
     · split at h
-      · obtain ⟨_, _, h⟩ := bind_ok_inv h; cases h
-      · split at h
-        · cases h
-        · obtain ⟨r', hr, h⟩ := bind_ok_inv h
-          cases h
-          exact ⟨hr, rfl, hlen⟩
+      · cases h
+      · obtain ⟨r', hr, h⟩ := bind_ok_inv h
+        cases h
+        exact ⟨hr, rfl, hlen⟩
 
 /-! ### mailbox_write_read -/
 
@@ -190,17 +179,15 @@ theorem mwr_spec {σ ρ : Type} (P : DevInv σ) (w : World σ) (cfg : Cfg) (req 
       exact hq.2 m' (by rw [hc]; exact List.mem_cons_of_mem _ hm')
 
 theorem mwr_safe {σ ρ : Type} (P : DevInv σ) (w : World σ) (cfg : Cfg) (req : List Nat) (u : List Nat → Res ρ)
-    (v : Nat → Nat → Bool) (s : St σ) (hw : WGood P w) (hs : QGood P s) (hu : ∀ b, Res.isPanic (u b) = false)
-    (hP : ∀ m, P.msg m → NoEmergency cfg m) : Safe P (mailboxWriteRead w cfg req u v s) := by
+    (v : Nat → Nat → Bool) (s : St σ) (hw : WGood P w) (hs : QGood P s) (hu : ∀ b, Res.isPanic (u b) = false) :
+    Safe P (mailboxWriteRead w cfg req u v s) := by
   obtain ⟨hq, hr⟩ := mwr_spec P w cfg req u v s hw hs
   refine ⟨?_, hq⟩
   rcases hr with hr | hr | ⟨m, hm, hr⟩
   · rw [hr]; rfl
   · rw [hr]; rfl
   · rw [hr]
-    apply triage_noPanic cfg u v _ hu
-    rw [mkPdu_bytes]
-    exact hP m hm
+    exact triage_noPanic cfg u v _ hu
 
 /-- A successful `mailbox_write_read` decoded its header from, and returns the data area of, one `P` message. -/
 theorem mwr_ok {σ ρ : Type} (P : DevInv σ) (w : World σ) (cfg : Cfg) (req : List Nat) (u : List Nat → Res ρ)
@@ -220,8 +207,8 @@ theorem mwr_ok {σ ρ : Type} (P : DevInv σ) (w : World σ) (cfg : Cfg) (req : 
 
 /-! ### Entry points: reads -/
 
-/-- The read-side message class: neither P1 nor P2 can fire. -/
-def ReadOk (cfg : Cfg) (m : List Nat) : Prop := NoEmergency cfg m ∧ SegLenOk cfg m
+/-- The read-side message class: P2 cannot fire. -/
+def ReadOk (cfg : Cfg) (m : List Nat) : Prop := SegLenOk cfg m
 
 theorem mailboxCounter_outq {σ : Type} (s : St σ) : (mailboxCounter s).2.outq = s.outq := rfl
 
@@ -247,7 +234,7 @@ theorem segLoop_safe {σ : Type} (w : World σ) (cfg : Cfg) (P : DevInv σ) (hP 
     unfold segLoop
     dsimp only
     have hsafe := mwr_safe P w cfg (segmentRequest (mailboxCounter s).1 toggle) unpackSdoSegmented
-      (fun _ _ => true) (mailboxCounter s).2 hw hs unpackSdoSegmented_noPanic (fun m hm => (hP m hm).1)
+      (fun _ _ => true) (mailboxCounter s).2 hw hs unpackSdoSegmented_noPanic
     have hok := mwr_ok P w cfg (segmentRequest (mailboxCounter s).1 toggle) unpackSdoSegmented
       (fun _ _ => true) (mailboxCounter s).2 hw hs
     generalize mailboxWriteRead w cfg (segmentRequest (mailboxCounter s).1 toggle) unpackSdoSegmented
@@ -262,7 +249,7 @@ theorem segLoop_safe {σ : Type} (w : World σ) (cfg : Cfg) (P : DevInv σ) (hP 
       obtain ⟨m, hm, hu, _, _⟩ := hok h data rfl
       have hlen := unpackSdoSegmented_length _ _ hu
       have hsub : Res.isPanic (subU16 cfg.mode h.header.length SEGMENT_HEADER_LEN) = false :=
-        subU16_noPanic _ _ _ (fun hc => by rw [hlen]; exact (hP m hm).2 hc)
+        subU16_noPanic _ _ _ (fun hc => by rw [hlen]; exact hP m hm hc)
       dsimp only
       cases hs16 : subU16 cfg.mode h.header.length SEGMENT_HEADER_LEN with
       | panic why => rw [hs16] at hsub; simp at hsub
@@ -280,7 +267,7 @@ theorem sdoRead_safe {σ : Type} (w : World σ) (cfg : Cfg) (P : DevInv σ) (hP 
   unfold sdoRead
   dsimp only
   have hsafe := mwr_safe P w cfg (uploadRequest (mailboxCounter s).1 index access) unpackSdoNormal
-    (validateIdx index access.subIndex) (mailboxCounter s).2 hw hs unpackSdoNormal_noPanic (fun m hm => (hP m hm).1)
+    (validateIdx index access.subIndex) (mailboxCounter s).2 hw hs unpackSdoNormal_noPanic
   generalize mailboxWriteRead w cfg (uploadRequest (mailboxCounter s).1 index access) unpackSdoNormal
     (validateIdx index access.subIndex) (mailboxCounter s).2 = r at hsafe
   obtain ⟨r1, s'⟩ := r
@@ -323,13 +310,13 @@ theorem sdoReadT_safe {σ α : Type} (w : World σ) (cfg : Cfg) (P : DevInv σ) 
     dsimp only
     split <;> rfl
 
-theorem sdoReadExpedited_safe {σ : Type} (w : World σ) (cfg : Cfg) (P : DevInv σ) (hP : ∀ m, P.msg m → NoEmergency cfg m) (hw : WGood P w) (index : Nat)
+theorem sdoReadExpedited_safe {σ : Type} (w : World σ) (cfg : Cfg) (P : DevInv σ) (hw : WGood P w) (index : Nat)
     (access : SubIndex) (s : St σ) (hs : QGood P s) :
     Safe P (sdoReadExpedited w cfg index access s) := by
   unfold sdoReadExpedited
   dsimp only
   have hsafe := mwr_safe P w cfg (uploadRequest (mailboxCounter s).1 index access) unpackSdoNormal
-    (validateIdx index access.subIndex) (mailboxCounter s).2 hw hs unpackSdoNormal_noPanic hP
+    (validateIdx index access.subIndex) (mailboxCounter s).2 hw hs unpackSdoNormal_noPanic
   generalize mailboxWriteRead w cfg (uploadRequest (mailboxCounter s).1 index access) unpackSdoNormal
     (validateIdx index access.subIndex) (mailboxCounter s).2 = r at hsafe
   obtain ⟨r1, s'⟩ := r
@@ -391,7 +378,7 @@ theorem sdoReadArray_safe {σ α : Type} (w : World σ) (cfg : Cfg) (P : DevInv 
 
 /-! ### Entry points: writes -/
 
-theorem sdoWrite_safe {σ : Type} (w : World σ) (cfg : Cfg) (P : DevInv σ) (hP : ∀ m, P.msg m → NoEmergency cfg m) (hw : WGood P w) (index : Nat)
+theorem sdoWrite_safe {σ : Type} (w : World σ) (cfg : Cfg) (P : DevInv σ) (hw : WGood P w) (index : Nat)
     (access : SubIndex) (value : List Nat) (s : St σ) (hs : QGood P s) :
     Safe P (sdoWrite w cfg index access value s) := by
   unfold sdoWrite
@@ -401,7 +388,6 @@ theorem sdoWrite_safe {σ : Type} (w : World σ) (cfg : Cfg) (P : DevInv σ) (hP
   · have hsafe := mwr_safe P w cfg
       (downloadRequest (mailboxCounter s).1 index access (value ++ zeros (4 - value.length)) value.length)
       unpackSdoExpedited (validateIdx index access.subIndex) (mailboxCounter s).2 hw hs unpackSdoExpedited_noPanic
-      hP
     generalize mailboxWriteRead w cfg
       (downloadRequest (mailboxCounter s).1 index access (value ++ zeros (4 - value.length)) value.length)
       unpackSdoExpedited (validateIdx index access.subIndex) (mailboxCounter s).2 = r at hsafe
@@ -412,7 +398,7 @@ theorem sdoWrite_safe {σ : Type} (w : World σ) (cfg : Cfg) (P : DevInv σ) (hP
     | panic why => simp at hnp
     | ok hd => exact ⟨rfl, hq⟩
 
-theorem writeEach_safe {σ : Type} (w : World σ) (cfg : Cfg) (P : DevInv σ) (hP : ∀ m, P.msg m → NoEmergency cfg m) (hw : WGood P w) (index : Nat) :
+theorem writeEach_safe {σ : Type} (w : World σ) (cfg : Cfg) (P : DevInv σ) (hw : WGood P w) (index : Nat) :
     ∀ (vs : List (List Nat)) (i : Nat) (s : St σ), QGood P s →
       Safe P (writeEach w cfg index i vs s) := by
   intro vs
@@ -421,7 +407,7 @@ theorem writeEach_safe {σ : Type} (w : World σ) (cfg : Cfg) (P : DevInv σ) (h
   | cons v vs ih =>
     intro i s hs
     unfold writeEach
-    have h := sdoWrite_safe w cfg P hP hw index (.index (i % 256)) v s hs
+    have h := sdoWrite_safe w cfg P hw index (.index (i % 256)) v s hs
     generalize sdoWrite w cfg index (.index (i % 256)) v s = r at h
     obtain ⟨r1, s'⟩ := r
     obtain ⟨hnp, hq⟩ := h
@@ -430,11 +416,11 @@ theorem writeEach_safe {σ : Type} (w : World σ) (cfg : Cfg) (P : DevInv σ) (h
     | panic why => simp at hnp
     | ok u => exact ih (i + 1) s' hq
 
-theorem sdoWriteArray_safe {σ : Type} (w : World σ) (cfg : Cfg) (P : DevInv σ) (hP : ∀ m, P.msg m → NoEmergency cfg m) (hw : WGood P w) (index : Nat)
+theorem sdoWriteArray_safe {σ : Type} (w : World σ) (cfg : Cfg) (P : DevInv σ) (hw : WGood P w) (index : Nat)
     (values : List (List Nat)) (s : St σ) (hs : QGood P s) :
     Safe P (sdoWriteArray w cfg index values s) := by
   unfold sdoWriteArray
-  have h := sdoWrite_safe w cfg P hP hw index (.index 0) [0] s hs
+  have h := sdoWrite_safe w cfg P hw index (.index 0) [0] s hs
   generalize sdoWrite w cfg index (.index 0) [0] s = r at h
   obtain ⟨r1, s'⟩ := r
   obtain ⟨hnp, hq⟩ := h
@@ -443,13 +429,13 @@ theorem sdoWriteArray_safe {σ : Type} (w : World σ) (cfg : Cfg) (P : DevInv σ
   | panic why => simp at hnp
   | ok u =>
     dsimp only
-    have h2 := writeEach_safe w cfg P hP hw index values 1 s' hq
+    have h2 := writeEach_safe w cfg P hw index values 1 s' hq
     generalize writeEach w cfg index 1 values s' = r2 at h2
     obtain ⟨r21, s''⟩ := r2
     obtain ⟨hnp2, hq2⟩ := h2
     cases r21 with
     | err e => exact ⟨rfl, hq2⟩
     | panic why => simp at hnp2
-    | ok u2 => exact sdoWrite_safe w cfg P hP hw index (.index 0) [values.length % 256] s'' hq2
+    | ok u2 => exact sdoWrite_safe w cfg P hw index (.index 0) [values.length % 256] s'' hq2
 
 end Ec.Coe
